@@ -30,3 +30,19 @@ pub fn bad_lz(n: usize, k: u64) -> u32 { k.leading_zeros() }
 pub fn ok_pub_if(n: usize, k: u8) -> u8 { if n > 3 { k } else { 0 } }
 pub fn ok_lz(n: usize, k: u64) -> u32 { n.leading_zeros() }
 fn fill(m: &mut usize, k: u8) { *m = k as usize; }
+
+// ARRAY-MAP: <[T; N]>::map on an array literal (direct or through an immutable binding) is a loop of syntactic length
+pub fn ok_array_map(n: usize, a: u64, b: u64) -> [u64; 2] { [a, b].map(|x| x.wrapping_mul(3)) }
+pub fn ok_array_map_let(n: usize, a: u64, b: u64) -> [u64; 2] { let h = [a, b]; h.map(|x| x.wrapping_mul(3)) }
+pub fn bad_array_map_body(n: usize, a: u64, b: u64) -> [u64; 2] { [a, b].map(|x| if x > 3 { x } else { 0 }) }
+pub fn bad_option_map(n: usize, a: Option<u64>) -> Option<u64> { a.map(|x| x + 1) }
+pub fn bad_mut_array_map(n: usize, a: Option<u64>) -> Option<u64> { let mut h = [a, a]; let k = h[0]; k.map(|x| x + 1) }
+// SELF-INHERIT: helper methods called on the caller's own `self` see the caller's public fields (and only those)
+pub struct K { n: u64, d: u64 }
+impl K {
+    fn help_n(&self) -> u32 { self.n.leading_zeros() }
+    fn help_d(&self) -> u32 { self.d.leading_zeros() }
+    pub fn ok_self_helper_m(&self) -> u32 { self.help_n() }
+    pub fn bad_self_helper_m(&self) -> u32 { self.help_d() }
+    pub fn bad_self_helper_nopub_m(&self) -> u32 { self.help_n() }
+}
